@@ -349,5 +349,17 @@ def write_evidence(prop, tier, seed, results, obligations, discharged, violation
     json.dump(ev, open(os.path.join(evdir, prop + ".json"), "w"), indent=1)
 
 
+def safe_main():
+    try:
+        return main()
+    except SystemExit:
+        raise
+    except BaseException as e:  # a crash of the machinery is "undecided", never an alarm
+        import traceback
+        traceback.print_exc()
+        print("UNDECIDED: internal error in the check driver: %r" % (e,))
+        return 2
+
+
 if __name__ == "__main__":
-    sys.exit(main())
+    sys.exit(safe_main())
